@@ -535,6 +535,8 @@ def compare_real(cases, res):
                 res.count('model:%s:unmodelled' % stream)
                 continue
             res.streams[stream] = res.streams.get(stream, 0) + 1
+            if stream == 'match-xspec' and any(t['once'] for t in c['tmpls']):
+                res.count('xspec:once-template')      # xpOnceForest: the first XPath match in document order
             if m != real:
                 res.disagreements.append({'stream': stream, 'case': case, 'model': repr(m)[:600], 'real': repr(real)[:600]})
         if union_with_attr_operand(c):
